@@ -188,9 +188,17 @@ func DecodeHintRecord(buf []byte) ([]byte, *DataPos) {
 }
 
 func DecodeChunk(block []byte) ([]byte, ChunkType, error) {
+	// 剩余数据不足以容纳 chunk 头部, 视为数据损坏
+	if len(block) < chunkHeaderSize {
+		return nil, 0, ErrInvalidCRC
+	}
 	// length
 	length := binary.LittleEndian.Uint16(block[4:6])
 	start, end := chunkHeaderSize, chunkHeaderSize+uint32(length)
+	// 头部记录的长度超出 block 范围, 视为数据损坏
+	if end > uint32(len(block)) {
+		return nil, 0, ErrInvalidCRC
+	}
 	checksum := crc32.ChecksumIEEE(block[4:end])
 	savedSum := binary.LittleEndian.Uint32(block[:4])
 	if savedSum != checksum {
